@@ -631,16 +631,38 @@ def has_named_func(term):
     return contains(term, lambda t: t["k"] == "named" and kind_of(t["u"]) == "func")
 
 
+def zero_size(t):
+    k = t["k"]
+    if k == "struct":
+        return all(zero_size(f["t"]) for f in t["fs"])
+    if k == "array":
+        return t["n"] == 0 or zero_size(t["e"])
+    if k == "named":
+        return zero_size(t["u"])
+    if k == "inst":
+        return zero_size(t["a"])
+    return False
+
+
+def has_trailing_zero_size_field(term):
+    """a struct of non-zero size whose last field has size zero (gc pads it by one byte; llgo's LLVM layout does not,
+    while its descriptors follow gc: element strides and following field offsets disagree)"""
+    return contains(term, lambda t: t["k"] == "struct" and len(t["fs"]) >= 2 and zero_size(t["fs"][-1]["t"]) and not zero_size(t))
+
+
 LINE_CLASSES = [
     # (class id, representative finding key, query filter, transformation of the expected text)
     ("typearg-literal-spacing", "str:main.G[struct_{_A_int_}]", lambda q: True, tight_typeargs),
     ("struct-tag-in-type-string", 'str:struct_{_A_int_"t"_}', lambda q: True, strip_tags),
     ("chan-of-recv-chan-parens", "str:chan_(<-chan_int)", lambda q: True, strip_chan_parens),
     ("named-interface-pkgpath", "pkg:main.NIM1_Znone", lambda q: q == "pkg", lambda s: "" if s == "main" else s),
+    # only in programs without reflect.Value.Method/MethodByName: Type.Method(i).Type is a fresh func type
+    ("method-type-identity", "mteq:main.NSXint__ZvMpM", lambda q: q == "mteq", lambda s: "false" if s == "true" else s),
 ]
 TERM_CLASSES = [
     # (class id, representative finding key, predicate on terms)
-    ("named-func-type", "kind:main.NF__Znone", has_named_func),
+    ("named-func-type", "name:main.NF__Znone", has_named_func),
+    ("trailing-zero-size-field", "fmt%v:v1:[2]struct_{_A_int;_B_struct_{}_}", has_trailing_zero_size_field),
 ]
 MODPATH_REP = "pkg:module=vmod:main.NSXint__ZvMpM"
 TABLE_CLASSES = [
